@@ -406,6 +406,10 @@ func (p *Parser) parseSelect() (*SelectStmt, error) {
 			return nil, err
 		}
 		fieldName := field.String()
+		if name, ok := field.(*NameExpr); ok {
+			// (the name itself, as ORDER BY and GROUP BY look it up)
+			fieldName = name.Data
+		}
 		if p.tok != nil {
 			if p.tok.Tp == AS {
 				p.next()
